@@ -246,6 +246,9 @@ func c13Run(c *c13Case) (fs []Failure) {
 	if strings.HasPrefix(c.Kind, "mgr-") {
 		return c14MgrRunCase(c)
 	}
+	if strings.HasPrefix(c.Kind, "mgrh-") {
+		return c14MgrHealthRun(c)
+	}
 	s := c13NewSelector(c.Kind, c.Weighted)
 	abs := &c13AbsSet{}
 	isCon := strings.HasPrefix(c.Kind, "conhash")
@@ -253,7 +256,9 @@ func c13Run(c *c13Case) (fs []Failure) {
 		o := &c.Ops[i]
 		switch o.Op {
 		case "refresh":
-			s.Refresh(c13Eps(o.Eps))
+			l := c13Eps(o.Eps)
+			s.Refresh(l)
+			c13Scribble(l) // the selector owns its list: what the caller does with its slice afterwards must not matter
 			abs.refresh(o.Eps)
 			o.Ok = true
 		case "add":
@@ -358,6 +363,19 @@ func c13Run(c *c13Case) (fs []Failure) {
 	return fs
 }
 
+// c13Scribble edits in place the slice that was passed to Refresh, the way a caller that keeps using its own slice
+// does (endpointManager shifts and re-sorts the slice it installed): shift left by one, then overwrite everything.
+func c13Scribble(l []endpoint.Endpoint) {
+	if len(l) > 1 {
+		copy(l, l[1:])
+	}
+	for i := range l {
+		l[i] = endpoint.Endpoint{Host: "alias-bogus", Port: int32(1 + i), Istcp: 1, Proto: "tcp", Weight: 1000, WeightType: 1}
+		l[i].Key = l[i].String()
+	}
+	_ = append(l[:0], endpoint.Endpoint{Host: "alias-bogus-2"})
+}
+
 func c13RunBswl(c *c13Case) (fs []Failure) {
 	l := c13Eps(c.Bswl)
 	c.Alloc = c13Allocated(func() { c.BswlObs = selector.BuildStaticWeightList(l) })
@@ -446,6 +464,9 @@ func c13Coq(c *c13Case) string {
 	}
 	if strings.HasPrefix(c.Kind, "mgr-") {
 		return c14MgrCoq(c)
+	}
+	if strings.HasPrefix(c.Kind, "mgrh-") {
+		return c14MgrHealthCoq(c)
 	}
 	var ops []string
 	for _, o := range c.Ops {
